@@ -10,18 +10,18 @@
    calls "free" (inet_aton short forms, IPv4-mapped IPv6) and scoped literals (%zone) are not judged. *)
 EXTENDS ProxyProto, Integers
 IsSpace(b) == b \in {32, 9, 10, 11, 12, 13}
-RECURSIVE SkipSpace(_, _)
-SkipSpace(s, k) == IF k <= Len(s) /\ IsSpace(s[k]) THEN SkipSpace(s, k + 1) ELSE k
-RECURSIVE DigitRun(_, _)
-DigitRun(s, k) == IF k <= Len(s) /\ IsDigit(s[k]) THEN 1 + DigitRun(s, k + 1) ELSE 0
+\* first position >= k whose byte does not satisfy P (Len(s) + 1 if none); set-based, inputs may be long
+FirstNot(s, k, P(_)) == LET stops == {j \in k..(Len(s) + 1) : j = Len(s) + 1 \/ ~P(s[j])} IN CHOOSE j \in stops : \A h \in stops : j <= h
+SkipSpace(s, k) == IF k > Len(s) THEN k ELSE FirstNot(s, k, IsSpace)
+DigitRun(s, k) == IF k > Len(s) THEN 0 ELSE FirstNot(s, k, IsDigit) - k
 \* integer token at position k: blanks, optional sign, 1*DIGIT
 LexInt(s, k) == LET p == SkipSpace(s, k)
                     sl == IF p <= Len(s) /\ s[p] \in {43, 45} THEN 1 ELSE 0
                     n == DigitRun(s, p + sl)
                 IN IF n = 0 THEN [ok |-> FALSE, neg |-> FALSE, digs |-> <<48>>, next |-> k]
                    ELSE [ok |-> TRUE, neg |-> (sl = 1 /\ s[p] = 45), digs |-> SubSeq(s, p + sl, p + sl + n - 1), next |-> p + sl + n]
-RECURSIVE StripZeros(_)
-StripZeros(d) == IF Len(d) > 1 /\ d[1] = 48 THEN StripZeros(Tail(d)) ELSE d
+\* digits without leading zeros (at least one digit is kept)
+StripZeros(d) == LET nz == FirstNot(d, 1, LAMBDA b : b = 48) IN IF nz > Len(d) THEN <<48>> ELSE SubSeq(d, nz, Len(d))
 Big == 1000000000      \* stands for every magnitude of ten or more digits
 Mag(t) == LET d == StripZeros(t.digs) IN IF Len(d) > 9 THEN Big ELSE DecVal(d)
 SVal(t) == IF t.neg THEN 0 - Mag(t) ELSE Mag(t)
